@@ -200,6 +200,15 @@ def main():
     print(f"{len(work)} mutants", flush=True)
     done = set()
     resf = os.path.join(outdir, "results.jsonl")
+    if "--rerun-survivors" in argv:
+        # second pass: the survivors of the first pass against the checks as they are now
+        surv = set()
+        for ln in open(resf):
+            r = json.loads(ln)
+            if r["outcome"] == "survived" and r.get("suite") == "passes":
+                surv.add((r["file"], r["kind"], r["line"], r["new"], r["orig"]))
+        work = [w for w in work if (w[0], w[2]["kind"], w[2]["line"], w[2]["new"], w[2]["orig"]) in surv]
+        resf = os.path.join(outdir, "results_pass2.jsonl")
     if os.path.exists(resf):
         for ln in open(resf):
             r = json.loads(ln)
@@ -216,6 +225,17 @@ def main():
 
 def summarize(outdir):
     recs = [json.loads(ln) for ln in open(os.path.join(outdir, "results.jsonl"))]
+    p2 = os.path.join(outdir, "results_pass2.jsonl")
+    if os.path.exists(p2):
+        # a survivor that the second pass (strengthened checks) kills counts as killed, marked as such
+        later = {}
+        for ln in open(p2):
+            r = json.loads(ln)
+            later[(r["file"], r["kind"], r["line"], r["new"], r["orig"])] = r
+        for i, r in enumerate(recs):
+            k = (r["file"], r["kind"], r["line"], r["new"], r["orig"])
+            if r["outcome"] == "survived" and k in later and later[k]["outcome"] != "survived":
+                recs[i] = dict(later[k], suite=r.get("suite"), second_pass=True)
     by = {}
     for r in recs:
         by.setdefault(r["outcome"], []).append(r)
@@ -233,6 +253,10 @@ def summarize(outdir):
         for r in by.get("killed", []):
             kc[r["by"]] = kc.get(r["by"], 0) + 1
         f.write(", ".join(f"{k}: {v}" for k, v in sorted(kc.items())) + "\n")
+        sp = [r for r in recs if r.get("second_pass")]
+        if sp:
+            f.write(f"\n{len(sp)} of the killed mutants survived the first pass and are killed by the checks as strengthened since "
+                    "(second pass, results_pass2.jsonl).\n")
 
 
 if __name__ == "__main__":
